@@ -168,3 +168,12 @@ def path_env_ok(env):
         except KeyError:
             return False
     return True
+
+
+def brief(o):
+    """short form of an outcome tuple for messages: ('ok',) without the values, ('raise', type, message[:300])"""
+    if not isinstance(o, tuple) or not o:
+        return repr(o)[:300]
+    if o[0] == 'ok':
+        return ('ok',)
+    return tuple(str(x)[:300] for x in o[:3])
